@@ -19,7 +19,7 @@ def fltCanon (kind hex : String) : String :=
   | "double" => hexUpper (reprint 11 52 b)
   | "float" => if b % 2 ^ 29 != 0 then "skip" else hexUpper (reprint 11 52 b)
   | "half" => if b < 2 ^ 16 then padHex 4 (reprint 5 10 b) else "skip"
-  | "fp128" => padHex 32 (reprint 15 112 b)
+  | "fp128" => padHex 32 (reprint128Lit b)
   | "x86_fp80" =>
     let se := b / 2 ^ 64
     let m := b % 2 ^ 64
@@ -35,7 +35,7 @@ def fltRt (kind hex : String) : String :=
     | "double" => isNaNBits 11 52 b
     | "float" => isNaNBits 11 52 b
     | "half" => isNaNBits 5 10 b
-    | "fp128" => isNaNBits 15 112 b
+    | "fp128" => isNaNBits 15 112 (swapWords b)
     | "x86_fp80" => isNaN80 (b / 2 ^ 64) (b % 2 ^ 64)
     | _ => false
   if nan && fltCanon kind hex != (if kind == "double" || kind == "float" then hexUpper b else hex.toUpper) then "FAIL:nan-payload-lost" else "ok"
